@@ -199,7 +199,8 @@ def judge_connector(subject, mult, plan, obs, base):
                         "never completely delivered (complete frames %r, %d bytes delivered)"
                         % (where, n, val, c, obs["complete"], obs["delivered"])))
     if obs["exc"] is None and len(res) < K:
-        bad.append(("silently-fewer-results:%s:%s" % (subject, obs["fault"]),
+        # operate(depth=0) IS connector.synchronous: one classification for one code path
+        bad.append(("silently-fewer-results:%s:%s" % ("synchronous" if subject == "operate0" else subject, obs["fault"]),
                     "%s: the result stream ended without an error after %d of %d results (connection failed: %s, %d reply "
                     "bytes delivered, frames %r)" % (where, len(res), K, obs["fault"], obs["delivered"], obs["frames"])))
     return bad
